@@ -38,7 +38,8 @@ def paren(t):
 
 class Kernel(object):
     def __init__(self, name, fn_ast, params, ret, locals_, attrs=None, calls=None, skip=(), consts=None,
-                 drop_params=("self", "cls"), self_attrs=None, truthy=None, lean_name=None, methods=None):
+                 drop_params=("self", "cls"), self_attrs=None, truthy=None, lean_name=None, methods=None,
+                 attr_targets=None, ret_extra=(), init_locals=None):
         self.name = lean_name or name
         self.fn = fn_ast
         self.params = params          # ordered list of (lean_name, type); python param names mapped via rename
@@ -53,6 +54,9 @@ class Kernel(object):
         self.truthy = truthy or {}    # type -> lean template giving Bool
         self.helpers = []
         self.nloops = 0
+        self.attr_targets = attr_targets or {}   # 'self.done' -> local name (assignment to an attribute = state update)
+        self.ret_extra = list(ret_extra)         # locals appended to every returned tuple (the updated state)
+        self.init_locals = init_locals or {}     # local name -> (lean initial value, type) bound before the body
 
     # ---------------------------------------------------------------- expressions
     def expr(self, e, env):
@@ -76,6 +80,8 @@ class Kernel(object):
             raise Untranslatable("unknown name %s" % e.id)
         if isinstance(e, ast.Attribute):
             src = ast.unparse(e)
+            if src in self.attr_targets and self.attr_targets[src] in env:
+                return env[self.attr_targets[src]]
             if src in self.self_attrs:
                 return self.self_attrs[src]
             base, bt = self.expr(e.value, env)
@@ -201,6 +207,8 @@ class Kernel(object):
             for st in ss:
                 if isinstance(st, ast.Assign):
                     for tg in st.targets:
+                        if isinstance(tg, ast.Attribute) and ast.unparse(tg) in self.attr_targets:
+                            tg = ast.Name(id=self.attr_targets[ast.unparse(tg)], ctx=ast.Store())
                         for n in ([tg] if isinstance(tg, ast.Name) else getattr(tg, "elts", [])):
                             if isinstance(n, ast.Name) and n.id not in out:
                                 out.append(n.id)
@@ -208,10 +216,20 @@ class Kernel(object):
                         and st.value.func.attr == "append" and isinstance(st.value.func.value, ast.Name):
                     if st.value.func.value.id not in out:
                         out.append(st.value.func.value.id)
+                elif isinstance(st, ast.AugAssign):
+                    tg = st.target
+                    if isinstance(tg, ast.Attribute) and ast.unparse(tg) in self.attr_targets:
+                        nm = self.attr_targets[ast.unparse(tg)]
+                    elif isinstance(tg, ast.Name):
+                        nm = tg.id
+                    else:
+                        nm = None
+                    if nm and nm not in out:
+                        out.append(nm)
                 elif isinstance(st, ast.If):
                     visit(st.body)
                     visit(st.orelse)
-                elif isinstance(st, ast.For):
+                elif isinstance(st, (ast.For, ast.With)):
                     visit(st.body)
         visit(stmts)
         return out
@@ -232,12 +250,23 @@ class Kernel(object):
         pad = "  " * ind
         if self.is_skipped(st):
             return self.block(rest, env, k, ind, early)
+        if isinstance(st, ast.Assign) and len(st.targets) == 1 and isinstance(st.targets[0], ast.Subscript) \
+                and ast.unparse(st.targets[0].value) in self.attr_targets:
+            nm = self.attr_targets[ast.unparse(st.targets[0].value)]
+            cur, t = env[nm]
+            idx, _ = self.expr(st.targets[0].slice, env)
+            val, _ = self.expr(st.value, env)
+            env2 = dict(env)
+            env2[nm] = (nm, t)
+            return "%slet %s : %s := (%s).set %s (%s)\n%s" % (pad, nm, t, cur, idx, val, self.block(rest, env2, k, ind, early))
         if isinstance(st, ast.Assign):
             if len(st.targets) != 1:
                 raise Untranslatable("multiple assignment targets")
             tg = st.targets[0]
             val, vt = self.expr(st.value, env)
             env2 = dict(env)
+            if isinstance(tg, ast.Attribute) and ast.unparse(tg) in self.attr_targets:
+                tg = ast.Name(id=self.attr_targets[ast.unparse(tg)], ctx=ast.Store())
             if isinstance(tg, ast.Name):
                 t = self.locals.get(tg.id, vt)
                 if vt.endswith("?") and tg.id in self.locals:
@@ -264,6 +293,15 @@ class Kernel(object):
             env2 = dict(env)
             env2[nm] = (nm, t)
             return "%slet %s : %s := %s ++ [%s]\n%s" % (pad, nm, t, cur, val, self.block(rest, env2, k, ind, early))
+        if isinstance(st, ast.With):
+            # `with lock:` is atomicity, not logic: the body is inlined
+            return self.block(list(st.body) + rest, env, k, ind, early)
+        if isinstance(st, ast.AugAssign):
+            op = {ast.Add: ast.Add, ast.Sub: ast.Sub, ast.Mult: ast.Mult}.get(type(st.op))
+            if op is None:
+                raise Untranslatable("augmented assignment operator")
+            new = ast.Assign(targets=[st.target], value=ast.BinOp(left=_load(st.target), op=op(), right=st.value))
+            return self.block([ast.fix_missing_locations(new)] + rest, env, k, ind, early)
         if isinstance(st, ast.If):
             c = self.truth(st.test, env)
             a = self.block(list(st.body) + rest, env, k, ind + 1, early)
@@ -275,6 +313,10 @@ class Kernel(object):
             if st.value is None:
                 raise Untranslatable("bare return")
             val, vt = self.expr(st.value, env)
+            if self.ret_extra:
+                inner = val[1:-1] if (val.startswith("(") and val.endswith(")") and vt == "Prod") else val
+                val = "(" + ", ".join([inner] + [env[n][0] for n in self.ret_extra]) + ")"
+                vt = "Prod"
             if early is None:
                 if is_opt(self.ret) and not is_opt(vt):
                     val = "some %s" % val
@@ -345,13 +387,22 @@ class Kernel(object):
         env = {}
         for (nm, t) in self.params:
             env[nm] = (nm, t)
+        pre = ""
+        for nm, (val, t) in self.init_locals.items():
+            env[nm] = (nm, t)
+            pre += "  let %s : %s := %s\n" % (nm, t, val)
 
         def k_end(_env, _ind):
             raise Untranslatable("function may fall off the end")
         body = self.block(list(self.fn.body), env, k_end, 1, None)
         sig = " ".join("(%s : %s)" % (n, t) for n, t in self.params)
-        main = "def %s %s : %s :=\n%s\n" % (self.name, sig, self.ret, body)
+        main = "def %s %s : %s :=\n%s%s\n" % (self.name, sig, self.ret, pre, body)
         return "\n".join(self.helpers) + "\n" + main
+
+
+def _load(target):
+    t = ast.parse(ast.unparse(target), mode="eval").body
+    return t
 
 
 def paren_expr(s):
